@@ -268,24 +268,24 @@ ADDENDA = {
     "C01": " Also: the second trajectory of an HMC take_step (retry) with its own energies; a whole ensemble iteration walker after walker against CURRENT positions; lattice kernels from states "
            "installed by replace_last; a half-integer lattice whose whole-number states are passed with an integer dtype; the attempt-level oracle after save -> load.",
     "C03": " Also: burned/thinned read-outs; limits set mid-run; integer-dtype starts; a hand-made in-process exchange through get_last/replace_last after every interleaving; fault enumeration "
-           "(the user's posterior raises at its k-th evaluation, the exception is caught, invariant and usability afterwards).",
+           "(the user's posterior raises at its k-th evaluation, the exception is caught, invariant and usability afterwards); an ensemble on a density with hard limits of its own (-inf outside) with a walker starting outside.",
     "C04": " The limit state machine includes a refused set_boundaries call (lower >= upper), which must leave the limits in force unchanged; starting points just outside the limits "
            "(1e-6..1e-1 widths, limits far from zero included) must be refused or never lead to an evaluation or record outside.",
     "C07": " Also: mass histories (estimate_mass, reload) against a fresh chain, and steep Gaussians of width 1e-4..1e-8 (energy error must shrink with the step).",
     "C08": " Also: chains of unequal initial length, ladders with equal temperatures (a certain exchange must be performed), exact one-step kernels from installed lattice states.",
     "C09": " Also: compressed saves, and a second save of the original after replace_last.",
-    "C14": " Fractions 0 and 1 included, and interval read-outs that retain nothing (an empty (0, n) sample).",
+    "C14": " Fractions 0 and 1 included, interval read-outs that retain nothing (an empty (0, n) sample), and get_marginal as an action of the read-out histories.",
     "C15": " Also: ParallelTempering.run_for under the virtual clock, budgets with days and fractions of a second, steps that cannot be completed within max_attempts (exactly m samples or a loud failure), identically seeded chains in a pool.",
-    "C02": " Also: noise terms in every position of a sum, kernel-level cross-covariance oracle, hyper-parameter regimes outside the default bounds, data far from the origin, call histories on one regressor with in-place theta, exact observations (zero entries of y_err / diagonal y_cov in five patterns).",
-    "C05": " Also: unusual container forms under a 'reject or be right' oracle; ownership histories (the caller overwrites the constructor's arrays in place afterwards).",
-    "C06": " Also: object-reuse histories (components reused across several JointPriors and Posteriors), 200/1000-draw initial guesses.",
+    "C02": " Also: noise terms in every position of a sum, kernel-level cross-covariance oracle, hyper-parameter regimes outside the default bounds, data far from the origin, call histories on one regressor with in-place theta, exact observations (zero entries of y_err / diagonal y_cov in five patterns), the caller overwriting the hyper-parameter array it handed over.",
+    "C05": " Also: unusual container forms under a 'reject or be right' oracle; ownership histories (the caller overwrites the constructor's arrays in place afterwards); non-uniform uncertainties at scales 1e-9..1e6 and nearly equal ones (relative spread 1e-6, 1e-9).",
+    "C06": " Also: object-reuse histories (components reused across several JointPriors and Posteriors), 200/1000-draw initial guesses, priors over 30/60/200 variables at scales 1e-6..1e6 (sum of one-variable terms, five JointPrior constructions).",
     "C10": " Also: extreme hyper-parameter regimes, every given/not-given mask of user bounds, histories with data changes, coordinate units 1e-9..1e9.",
     "C11": " Also: selection through a real Pool (n_processes 1..3), two-model interleavings, container forms of data and hyper-parameters ('reject or be right'), large-n (100..600 points) value vs gradient path against a float64 reference, x units 1e-6..1e6 and y/error units 1e-9..1e6.",
-    "C12": " Also: bulk-plus-outlier samples (range/bandwidth in the thousands), call histories with in-place changes of the evaluation array.",
-    "C13": " Also: call histories with in-place modification between calls, 49 container/dtype/layout forms, full-range integer dtypes, samples of 1e5..1e6 values against a vectorised exact reference.",
+    "C12": " Also: bulk-plus-outlier samples (range/bandwidth in the thousands), call histories with in-place changes of the evaluation array, ownership of the sample (caller overwrites its container afterwards; four container forms, three orders).",
+    "C13": " Also: call histories with in-place modification between calls, 49 container/dtype/layout forms, full-range integer dtypes, samples of 1e5..1e6 values against a vectorised exact reference, int64/uint64 spreads beyond 2^63.",
     "C16": " Also: in-place histories for query and hyper-parameter arrays, composite kernels ('may raise NotImplementedError, but if it returns it must be right').",
-    "C17": " Also: interleavings of two/three inverters of every construction style, data/error units 1e-9..1e9.",
-    "C18": " Also: repeated measurements at existing locations, bounds in every container form, dtype/container forms of initial and added data, acquisition optimum on the boundary at an evaluated point, objective units 1e-9..1e6.",
+    "C17": " Also: interleavings of two/three inverters of every construction style, data/error units 1e-9..1e9, user-written means with 0, 1, 2, 3 hyper-parameters and non-uniform profiles.",
+    "C18": " Also: repeated measurements at existing locations, bounds in every container form, dtype/container forms of initial and added data, acquisition optimum on the boundary at an evaluated point, objective units 1e-9..1e6, an unsteered ladder of queries covering every band of the standardised improvement from below -6 to above 6.",
     "C19": " Also: arrays of 1..1000 points in three orders vs point-wise evaluation; interval() independent of the order of earlier requests on the same estimator.",
     "C20": " Also: narrow conditionals (1e-2..1e-8 of the bounds) at 14 positions with a resolution oracle.",
 }
